@@ -12,6 +12,7 @@ EXPLANATION = (
     "[STATE-DEPS] the guards of every return/store in _decode, _decode_fast_message and _call_decode_function read only configuration attributes (never mutated outside __init__), the source map and the reassembly buffers -- bookkeeping such as the logged-PGN set decides nothing. [FRESH-MSG] every leaf decoder constructs its message inside the call and returns that object (C01 GEN-DEC return obligations). [RA-RESET]/[RA-PRE]/[RA-DONE]/[RA-KEY] (C04's clauses that make a complete message with a fresh counter independent of what was received before). [RA-SAFE] in the "
     "reassembly step every index that can fail on a truncated frame precedes all writes to the record. UNDECIDED: 'identically after any history' as "
     "such (needs C04/C10/C11's mechanisms composed)."
+    " Fifth round: [STATE-DEPS] configuration is what __init__ derives from its parameters; attributes bound to something fresh are the decoder's own state, of which only the source map and the reassembly buffers may decide what is returned. [DEFAULTS-RO] aliases of a mutable default are followed through locals, loop variables over literal tuples and values returned by callees; the witnesses are in-place edits and un-copied stores into an instance."
 )
 ASSUMPTIONS = ["CPython ast parser", "method resolution inside ioclient.py by class-body order (single inheritance)", "a comprehension / list() / set() / split makes a copy"]
 
